@@ -67,7 +67,10 @@ def gen_function(rng, fid, role, avail, phase_ctx, opts, later=()):
     if role == 'mw':
         params = [('next', 'req')] + params
     form = rng.pick(MW_FORMS if role == 'mw' else EP_FORMS)
-    return {'fid': fid, 'params': [list(p) for p in params], 'form': form}
+    spec = {'fid': fid, 'params': [list(p) for p in params], 'form': form}
+    if role == 'mw' and rng.chance(0.3):
+        spec['next_style'] = 'pos'      # hands its provided values to next() positionally
+    return spec
 
 
 def gen_config(rng, opts=None):
@@ -198,6 +201,21 @@ def gen_config(rng, opts=None):
         if pick:
             levels[k]['prefix_bindings'] = [rng.pick(pick)]
             spare = [n for n in spare if n not in levels[k]['prefix_bindings']]
+    if opts.get('siblings', True) and rng.chance(0.35):
+        # earlier sibling routes (or an embedded sibling application) with middlewares of their own
+        sibs = []
+        for i in range(rng.randint(1, 2)):
+            smws = []
+            for j in range(rng.randint(1, 2)):
+                mid = 's%d_%d' % (i, j)
+                phases = [ph for ph in ('request', 'endpoint', 'render') if rng.chance(0.6)] or ['request']
+                m = {'mid': mid, 'type': 'S%d_%d' % (i, j), 'unique': True, 'reorderable': True, 'request': None, 'endpoint': None,
+                     'render': None, 'provides': [], 'endpoint_provides': [], 'render_provides': []}
+                for ph in phases:
+                    m[ph] = {'fid': '%s.%s' % (mid, ph), 'form': 'function', 'params': [['next', 'req']]}
+                smws.append(m)
+            sibs.append({'mws': smws, 'embedded': rng.chance(0.4)})
+        route['siblings'] = sibs
     if opts.get('decoys', False) and rng.chance(0.6):
         # names the real route may receive from route-level sources (or defaults), never from a level:
         # a decoy route binding such a name from the URL must not leak it
